@@ -284,10 +284,27 @@ __CPROVER_assigns(phdr_size != NULL: *phdr_size)
 __CPROVER_ensures((phdr_size != NULL && hdr_size != 0 && vals_count != 0) ==> *phdr_size <= hdr_size)
 ;
 
+/* -DVF_HTTP_GHOST_K: unbounded single-conjunct content variant (C20, thorough tier): for the
+ * harness-chosen ghost index vf_k, an accepted block satisfies the byte rules 1 and 2 at vf_k */
+#ifdef VF_HTTP_GHOST_K
+extern size_t vf_k;
+/* the byte rules 1 and 2 of the smuggling table (specs/http_spec.h vs_byte_rule), stateless */
+#define VF_SEC_BYTE_OK(b, n, k)							\
+	((b)[k] <= 126 &&								\
+	 !((b)[k] == ' ' && (k) + 1 < (n) && (b)[(k) + 1] == ':') &&			\
+	 ((b)[k] >= 32 || (b)[k] == '\t' ||						\
+	  ((b)[k] == '\r' && (k) + 1 < (n) && (b)[(k) + 1] == '\n') ||			\
+	  ((b)[k] == '\n' && (k) > 0 && (b)[(k) - 1] == '\r')))
+#define VF_SEC_CHK_K_ENSURES	__CPROVER_ensures((__CPROVER_return_value == 0 && vf_k < hdr_size) ==> \
+    VF_SEC_BYTE_OK(http_hdr, hdr_size, vf_k))
+#else
+#define VF_SEC_CHK_K_ENSURES
+#endif
 int http_req_sec_chk(const uint8_t *http_hdr, size_t hdr_size, uint32_t method_code)
 __CPROVER_requires(VF_FRESH_IN(http_hdr, hdr_size))
 __CPROVER_assigns()
 __CPROVER_ensures(0 <= __CPROVER_return_value && __CPROVER_return_value <= 7)
+VF_SEC_CHK_K_ENSURES
 ;
 
 /* -------------------------------------------------------------------- query string ---- */
